@@ -4,6 +4,7 @@ import (
 	"bytes"
 	"encoding/xml"
 	"fmt"
+	"io"
 	"mime"
 	"os"
 	"path/filepath"
@@ -355,29 +356,47 @@ func serialisable(n *model.Node) (bool, string) {
 	return true, ""
 }
 
+var xmlNameCache = map[string]bool{}
+
+// isXMLName: can this string be written as an element/attribute name that the
+// XML reader used for the round trip accepts? Decided by that reader itself
+// (encoding/xml implements the XML 1.0 name classes, which exclude e.g. emoji).
 func isXMLName(s string) bool {
-	if s == "" {
-		return false
+	if v, ok := xmlNameCache[s]; ok {
+		return v
 	}
-	for i, r := range s {
-		letter := r == '_' || (r >= 'a' && r <= 'z') || (r >= 'A' && r <= 'Z') || r >= 0xC0
-		if i == 0 && !letter {
-			return false
-		}
-		if !(letter || r == '-' || r == '.' || (r >= '0' && r <= '9') || r == 0xB7) {
-			return false
+	ok := s != "" && !strings.ContainsAny(s, " \t\r\n<>/=\"'&:") && utf8.ValidString(s)
+	if ok {
+		d := xml.NewDecoder(strings.NewReader("<" + s + " " + s + "=\"\"/>"))
+		for {
+			_, err := d.Token()
+			if err != nil {
+				ok = err == io.EOF
+				break
+			}
 		}
 	}
-	return true
+	if len(xmlNameCache) < 100000 {
+		xmlNameCache[s] = ok
+	}
+	return ok
 }
 
-// dropEmptyText removes empty text nodes (a JSON "" value): they have no XML
-// serialisation and no counterpart in the data model.
+// dropEmptyText removes empty text nodes (a JSON "" value) and joins adjacent
+// text nodes (the HTML5 parser leaves "a","b" next to each other after foster
+// parenting): neither has an XML serialisation of its own, and the XPath data
+// model has neither.
 func dropEmptyText(n *model.Node) *model.Node {
 	m := *n
 	m.Children = nil
 	for _, c := range n.Children {
 		if c.Kind == model.KText && c.Value == "" {
+			continue
+		}
+		if k := len(m.Children); c.Kind == model.KText && k > 0 && m.Children[k-1].Kind == model.KText {
+			joined := *m.Children[k-1]
+			joined.Value += c.Value
+			m.Children[k-1] = &joined
 			continue
 		}
 		m.Children = append(m.Children, dropEmptyText(c))
